@@ -399,6 +399,18 @@ bool vf_enumerate(Ctx &c, EnumStats &st) {
           long long v = sg * ce + dlt; if (v < -2147483648LL || v > 2147483647LL) continue;
           if (!mine()) continue;
           c.trace = "enumerated: comma_number " + std::to_string(v); chk_comma(c, (int)v); st.evaluations++; if (v >= 1000 || v <= -1000) st.nontrivial++; } }
+    // replace sizes its output buffer from a worst-case bound (source length x replacement length):
+    // inputs of a few tens of KiB whose bound passes 2^31 / 2^32 while the real result stays small
+    if (shard == 0) {
+        static const size_t dims[][2] = {{65536, 65537}, {46341, 46341}, {65535, 65537}, {70000, 70000}, {100000, 43000}};
+        for (auto &dm : dims) for (int method = 0; method < 2; method++) {
+            std::string src(dm[0], 'x'); src[dm[0] / 2] = 'a'; src[dm[0] - 1] = 'a';
+            std::string word(dm[1], 'w'); word[0] = '<'; word[dm[1] - 1] = '>';
+            c.trace = strf("enumerated: replace(%s) of a %zu-byte source with two matches by a %zu-byte word (bound %zu x %zu)", method ? "token" : "string", dm[0], dm[1], dm[0], dm[1]);
+            chk_replace(c, src, "a", word, method ? 't' : 's');
+            st.evaluations++; st.nontrivial++;
+        }
+    }
     if (g_san_reports) c.fail(MEM, g_san_last, "sanitizer report(s) during the enumeration of short strings: %s", g_san_last);
     st.states = st.evaluations;
     st.extra["max_length"] = (uint64_t)L;
